@@ -224,5 +224,12 @@ func (iter *UnsavedFastIterator) Close() error {
 
 // Error implements store.Iterator
 func (iter *UnsavedFastIterator) Error() error {
-	return iter.err
+	if iter.err != nil {
+		return iter.err
+	}
+	// an error of the iterator over the persisted index ends the iteration early as well
+	if iter.fastIterator != nil {
+		return iter.fastIterator.Error()
+	}
+	return nil
 }
